@@ -223,6 +223,21 @@ def build(case):
     return spec, gen.build_image(spec)
 
 
+def alpha_spec(alpha):
+    """The transparency part of a format specifier denoting `alpha` (None when a float has no plain
+    '.digits' decimal form that reads back exactly)."""
+    if alpha is None:
+        return "#"
+    if alpha == "#":
+        return "##"
+    if isinstance(alpha, str):
+        return alpha
+    r = repr(float(alpha))
+    if r.startswith("0.") and "e" not in r and float(r[1:]) == alpha:
+        return "#" + r[1:]
+    return None
+
+
 def akind(alpha):
     if alpha is None:
         return "none"
@@ -280,6 +295,18 @@ def check_pixels(case, rec):
             outs = image._renderer(image._render_image, alpha, split_cells=True)
         except Exception as e:
             raise Violation(f"block render raised {type(e).__name__}: {e}", {"kind": "render_exception"})
+        # the public path: the same transparency setting written as a format specifier ("1.1" = padding that
+        # is never larger than the render, i.e. none) must give the very same render
+        aspec = alpha_spec(alpha)
+        if aspec is not None:
+            try:
+                pub = format(image, "1.1" + aspec)
+            except Exception as e:
+                raise Violation(f"format(image, {'1.1' + aspec!r}) raised {type(e).__name__}: {e}", {"kind": "format_exception"})
+            if pub != out:
+                raise Violation(f"format(image, {'1.1' + aspec!r}) differs from the render with alpha={alpha!r} "
+                                f"(mode {pil.mode}, {cols}x{lines} cells)", {"clause": "format_path", "alpha": akind(alpha)})
+            rec.label("format_path")
     finally:
         image.close()
 
